@@ -1,6 +1,6 @@
 """C03 — type mismatches are rejected at compile time (DESIGN §4 C03)."""
 from hir import nodes, walk, fn_body, callee, last, line_of, peel, pp, norm_path, pat_alternatives, pat_variant
-from engines import Visit, matches_on, arm_alternatives, ty_mentions
+from engines import Visit, matches_on, arm_alternatives, ty_mentions, ty_is
 from flow import Flow
 import tc
 from tc import TC, TCM, NR, TY
@@ -18,6 +18,7 @@ EXPLANATION = (
     "property lists (int+str, int==float, -str, void variable ... are errors); (COPY-STRUCTURE) instantiating a polymorphic "
     "function type keeps every operator constraint (same kind, operand edge remapped into the copy), so the mismatch "
     "rules also hold for calls of unannotated functions."
+    ' (OPERAND-PAIR, FIELD-SETS) as in C02; (VISIT-dep, PARTITION, USERTYPE) a declaration is checked before any annotation naming it is resolved: declarations are ordered by the types their fields mention, precede all values, and an annotation naming a still-unknown declaration is not silently accepted.'
 )
 UNDECIDED = "that the list of mismatch kinds is complete; precision of inference (over-rejection)."
 
@@ -433,7 +434,36 @@ def run(F, rep, tier):
     c02.copy_structure(F, rep)
     unification_core(F, rep)
     pairing(F, rep)
+    declared_types_known(F, rep)
     tc.dropped_results(F, rep, "DROPPED-ERROR", ["sylt_compiler::typechecker::", "sylt_compiler::name_resolution::", "sylt_compiler::dependency::"])
+
+
+def declared_types_known(F, rep):
+    """an annotation naming a user type constrains a value only if the declaration has been checked when the annotation
+    is resolved: (a) every type a declaration's fields/variants mention is a dependency edge (ordering among type
+    declarations), type declarations precede values (partition) - the C11 instances; (b) the UserType arm of
+    inner_resolve_type does not quietly accept a declaration that is still Unknown"""
+    import c11
+    c11.dependency_visit(F, rep)
+    c11.partition(F, rep)
+    firt = F.fn(TC + "inner_resolve_type")
+    rep.analysed(firt)
+    arms = tc.arm_of(F, firt, NR + "Type", "UserType")
+    if not arms:
+        rep.anchor_missing("inner_resolve_type UserType arm")
+        return
+    quiet = None
+    for m in nodes(arms[0][0]["body"], "Match"):
+        if ty_is(m.get("scrut_ty", ""), TY) or ty_is(m.get("scrut_ty", "").lstrip("&"), TY):
+            for a in m["arms"]:
+                for alt in pat_alternatives(a["pat"]):
+                    if (pat_variant(alt) or "").endswith("ty::Type::Unknown") and not tc.is_err_value(a["body"]):
+                        quiet = a
+    rep.ob("USERTYPE", "inner_resolve_type|UserType|declaration-still-unknown", quiet is None,
+           "an annotation naming a declaration that has not been checked yet is not silently accepted" if quiet is None else
+           "inner_resolve_type's UserType arm accepts a named declaration whose type is still Unknown and returns a fresh "
+           "unconstrained node: the annotation then means `anything`.  With declarations ordered by their field types this "
+           "remains for a type that mentions itself (the self edge is dropped)", line_of(quiet) if quiet else firt["sp"])
 
 
 def pairing(F, rep):
